@@ -572,6 +572,21 @@ theorem C09_scan_after_drain_skeleton :
     skelOf backendFile "pending" = ["flush"] ∧ ¬ (skelOf backendFile "poll_signal").contains "flush" ∧
     skelOf backendFile "poll_pending" = ["is_closed", "has_signals", "pending"] := by decide
 
+/-- **C09.frontend_skeleton** — tie to the source (regenerated) of the glue between the modelled back
+end and the user of `signal_hook::iterator::Signals`: the blocking readiness callback is *one*
+one-byte `read` (retried only on `EINTR`, answering "something was read"), which is what the model's
+blocking callback step is; `wait` hands exactly that callback to `poll_pending` and falls back to
+`pending()` when told the instance is closed; `forever` builds the iterator over the same instance and
+its `next` loops over `poll_signal` with the same callback, retrying on `Pending`. (A callback that
+reads in bigger chunks until a short read blocks for good when the wake-up bytes are a multiple of the
+chunk.) -/
+theorem C09_frontend_skeleton :
+    skelOf "src/iterator/mod.rs" "has_signals" = ["loop", "read.one", "ok.nonzero", "interrupted", "break.err"] ∧
+    skelOf "src/iterator/mod.rs" "wait" = ["poll_pending.has_signals", "some.pending", "none.pending", "panic"] ∧
+    skelOf "src/iterator/mod.rs" "forever" = ["iterator.new"] ∧
+    skelOf "src/iterator/mod.rs" "next" =
+      ["loop", "poll_signal.has_signals", "signal.some", "closed.none", "pending.continue", "err.panic"] := by decide
+
 end SigHook.Iter
 
 /-! ## Queueing exfiltrators: the scan hands out everything that is queued (`Lemmas/Scan.lean`) -/
